@@ -37,11 +37,14 @@ var s6Leaves = []tLeaf{
 	{Name: "r9", Base: "int16", Levels: []tLevel{{Range: "-32768..-32767 | 0 | 32766..32767"}}},
 	{Name: "r10", Base: "uint8", Levels: []tLevel{{Range: "0..200"}, {Range: "100..max"}, {Range: "min..127"}}},
 	{Name: "r11", Base: "int64", Levels: []tLevel{{Range: "min..-9223372036854775807 | 0..1"}}},
+	{Name: "r12", Base: "int32", Levels: []tLevel{{Range: "1..5 | max"}}},
+	{Name: "r13", Base: "uint8", Levels: []tLevel{{Range: "min | 10..20"}}},
 	{Name: "d1", Base: "decimal64", Body: "fraction-digits 2;", Levels: []tLevel{{Range: "-0.5..1.5"}}},
 	{Name: "d2", Base: "decimal64", Body: "fraction-digits 2;", Levels: []tLevel{{Range: "0..255.5"}, {Range: "0.5..127.5"}}},
 	{Name: "s1", Base: "string", Levels: []tLevel{{Length: "1..3"}}},
 	{Name: "s2", Base: "string", Levels: []tLevel{{Length: "0..5"}, {Length: "2..4"}}},
 	{Name: "s3", Base: "string", Levels: []tLevel{{Length: "0 | 2..max"}}},
+	{Name: "s10", Base: "string", Levels: []tLevel{{Length: "1..3 | max"}}},
 	{Name: "s4", Base: "string", Levels: []tLevel{{Pats: []abs.Pat{{Re: "[a-c]+"}}}}},
 	{Name: "s5", Base: "string", Levels: []tLevel{{Pats: []abs.Pat{{Re: "[a-z]*"}, {Re: ".*b.*"}}}}},
 	{Name: "s6", Base: "string", Levels: []tLevel{{Pats: []abs.Pat{{Re: "[a-z]+"}}}, {Pats: []abs.Pat{{Re: "a.*", Inv: true}}}}},
